@@ -267,6 +267,10 @@ func (s *netSim) reshareOp(f []string, t0 time.Time) string {
 		ep := s.lastEpoch()
 		old := s.epochs[len(s.epochs)-2]
 		nd := s.nodes[i]
+		if ep.tTime < nd.clk.Now().Unix() {
+			// core's validateGroupTransition refuses an outcome whose transition time has passed
+			return s.snapshot(t0, false) + " role=refused:past"
+		}
 		_, isOld := old.members[i]
 		_, isNew := ep.members[i]
 		role := ""
